@@ -2,6 +2,8 @@ SER = 'stone/backends/python_rsrc/stone_serializers.py'
 BASE = 'stone/backends/python_rsrc/stone_base.py'
 PT = 'stone/backends/python_types.py'
 MUTANTS = [
+    dict(id='ru-default-stored-as-unset', expect='fire', rule='C05-RU', edits=[(BASE,
+        "        setattr(instance, self.name, value)\n", "        if value == self.default:\n            value = NOT_SET\n        setattr(instance, self.name, value)\n")]),
     dict(id='union-nests-structs', expect='fire', rule='C05-R1', edits=[(SER,
         "            if isinstance(field_validator, bv.Struct) \\\n                    and not isinstance(field_validator, bv.StructTree):", "            if False:")]),
     dict(id='nested-under-value-key', expect='fire', rule='C05-R1', edits=[(SER,
